@@ -51,6 +51,27 @@ def tweak(rng, sc):
             else:
                 p["vols"] = [v for v in p["vols"] if v.get("claim") is None]
         sc["cache"]["pods"] = copy.deepcopy(sc["api"]["pods"])
+    if rng.random() < 0.12 and sc["api"].get("set") and sc["cache"].get("set"):
+        # a stale cached set: the live set was deleted and re-created under the same name (another UID, not being deleted), or is
+        # gone, or is being deleted — while orphans (pods, revisions) wait for adoption: nothing may be adopted for the old UID
+        how = rng.choice(["replaced", "replaced", "gone", "deleting"])
+        if how == "replaced":
+            sc["api"]["set"]["uid"] = "u9"
+        elif how == "gone":
+            sc["api"]["set"] = None
+        else:
+            sc["api"]["set"]["deleting"] = True
+        for r in sc["api"]["revs"]:
+            if rng.random() < 0.6:
+                r["owner"] = None
+        for w in (sc["api"], sc["cache"]):
+            st = rng.getstate()
+            for p in w["pods"]:
+                if rng.random() < 0.4:
+                    p["owner"], p["match"], p["term"] = None, True, False
+            rng.setstate(st)
+        for p in sc["api"]["pods"]:
+            rng.random()
     return sc
 
 
